@@ -18,9 +18,9 @@ def fstep(timeout=1500):
     h.bounds = dict(end_offset="16..2^62", frames=1)
     return h
 
-def fc(n, grouping, desc=12, timeout=1500):
+def fc(n, grouping, desc=12, timeout=1500, meta=1):
     fsz = 16 + n * (8 + 320 + 8 + 8 + 8 + ((desc + 8) // 8) * 8 + 16) + 64
-    h = tc.tiff_h(H, VERIF, "tiffjson_file_N%d_g%d" % (n, grouping), ["MODE=15", "NFRAMES=%d" % n, "GROUPING=%d" % grouping, "DESC=%d" % desc, "FILE_URI=0"],
+    h = tc.tiff_h(H, VERIF, "tiffjson_file_N%d_g%d_m%d" % (n, grouping, meta), ["MODE=15", "NFRAMES=%d" % n, "GROUPING=%d" % grouping, "DESC=%d" % desc, "FILE_URI=0", "SBS_META=%d" % meta],
                   unwind=max(18, n + 2), timeout=timeout, unwindset={"file_write.0": fsz + 1}, composite=True)
     h.what = "tiff-json composite: side_by_side_tiff_init/append/stop/destroy (clang IR -> C) around the translated tiff writer; set/start modelled by hand after the source (guarded by a source-text check); %d frame(s); same streaming reader on data.tif; metadata.json written and closed" % n
     h.bounds = dict(frames=n, image_bytes=8, metadata="absent or {}")
@@ -28,8 +28,7 @@ def fc(n, grouping, desc=12, timeout=1500):
 
 def harnesses(tier, findings):
     if tier == "composite":
-        a = fc(1, 1, timeout=2400); a.solver = "kissat"
-        return [a]
+        return [fc(1, 1, timeout=900, meta=1), fc(1, 1, timeout=900, meta=0)]
     if tier == "probe":
         a = f(1, 1); a.solver = "kissat"; a.name += "_kissat"; a.timeout = 900
         return [a, f(1, 1, timeout=900)]
